@@ -1,9 +1,11 @@
 import ShellOp.Util
 import ShellOp.Model.Snapshot
 import ShellOp.Model.FactoryStore
+import ShellOp.Model.SnapFilter
+import ShellOp.Drv.JsonParse
 /-! Line-protocol suite for C02 (snapshots). Core-only. -/
 namespace ShellOp.Drv.C02
-open ShellOp ShellOp.Util ShellOp.Snapshot
+open ShellOp ShellOp.Util ShellOp.Snapshot ShellOp.Json ShellOp.SnapFilter
 
 structure MonSt where
   id : Nat
@@ -11,6 +13,7 @@ structure MonSt where
   m : Monitor := {}
   added : Bool := false
   started : Bool := false
+  prog : Option (List Term) := none   -- the binding's jqFilter (FilterFunc: the program it computes)
 
 /-- a `Snapshot()` call in progress (controlled schedule): monitor, next static informer to read,
 objects collected so far, the worlds the cluster went through since the call began -/
@@ -26,15 +29,67 @@ structure St where
   rid : List (Key × Nat) := []
   hook : HookDecl := {}
   conc : Option Conc := none
+  heap : Heap Entry := {}                 -- backing arrays of the slices handed out by Snapshot()
+  held : List (Nat × Slice) := []         -- snapshots an execution keeps holding, by monitor id
 
 def ridOf (st : St) (k : Key) : Nat :=
   match st.rid.find? (fun p => p.1 == k) with
   | some p => p.2
   | none => 0
 
-/-- content = lbl·10000 + a·100 + b ; the generated filter projects `a` -/
-def theCfg (keep flt : Bool) : Cfg :=
-  { keepFull := keep, flt := fun c => c / 100 % 100, chk := id, hasFilter := flt }
+/-- content = lbl·10000 + a·100 + b: the part of the object the generated programs can see -/
+def objOf (c : Nat) : J :=
+  .obj [("data", .obj [("a", .str (toString (c / 100 % 100))), ("b", .str (toString (c % 100)))]),
+        ("metadata", .obj (if c / 10000 == 1 then [("labels", .obj [("sel", .str "yes")])] else []))]
+
+/-- the filter result as the protocol carries it: the JSON text, as a number -/
+def fltOf (p : List Term) (c : Nat) : Nat :=
+  match runProg p (objOf c) with
+  | some outs => encStr (applyFilterValue outs).print
+  | none => 0
+
+/-- without a program (no filter) the projection is not used -/
+def theCfg (keep flt : Bool) (prog : Option (List Term) := none) : Cfg :=
+  { keepFull := keep, chk := id, hasFilter := flt,
+    flt := match prog with
+      | some p => fltOf p
+      | none => fun c => c / 100 % 100 }
+
+/-- Term encoding: a filter AST of `JsonParse`, `{"e":[]}` = `empty`, `{"it":[keys]}` = `.keys[]`;
+a program is `{"c":[term,…]}`. -/
+def term? : J → Option Term
+  | .obj [("e", _)] => some .empty
+  | .obj [("it", ks)] => (ShellOp.Drv.JsonParse.strs? ks).map .iter
+  | j => (ShellOp.Drv.JsonParse.filter? j).map .one
+
+def progOf? (s : String) : Option (List Term) :=
+  match ShellOp.Drv.JsonParse.json? s with
+  | some (.obj [("c", .arr ts)]) => ts.mapM term?
+  | _ => none
+
+partial def decStr (n : Nat) (acc : List Char := []) : String :=
+  if n ≤ 1 then String.ofList acc else decStr (n / 256) (Char.ofNat (n % 256) :: acc)
+
+/-- `oracle filt`: every element that belongs to an object of the cluster carries the documented
+result of the binding's program on THAT object (`frDocumented`, spec level: it does not use
+`applyFilterValue`). -/
+def filtExact (p : List Term) (w : World) (got : List Entry) : Bool :=
+  got.all (fun e =>
+    match w.objs.find? (fun o => o.key == e.key) with
+    | none => true
+    | some o =>
+      match runProg p (objOf o.content), ShellOp.Drv.JsonParse.json? (decStr e.fr) with
+      | some outs, some r => frDocumented outs r
+      | _, _ => false)
+
+/-- the caches `Snapshot()` reads, in reading order -/
+def cachesOf (m : Monitor) : List (List Entry) :=
+  m.static.map (·.cache) ++ m.varying.flatMap (fun p => p.2.map (·.cache))
+
+/-- one `Snapshot()` call of the monitor on the driver's heap -/
+def snapCall (st : St) (ms : MonSt) : St × Slice :=
+  let r := snapshotCall (modelSort (ridOf st)) { caches := cachesOf ms.m, heap := st.heap }
+  ({ st with heap := r.1.heap }, r.2)
 
 def showEntry (e : Entry) : String :=
   let o := match e.obj with | some c => toString c | none => "-"
@@ -69,8 +124,10 @@ def parseMon (id : Nat) (rest : List String) : Option MonSt := do
     | none => some none
     | some "-" => some none
     | some x => x.toNat?.map some
-  some { id := id,
-         mc := { cfg := theCfg (boolOf ((kv? "keep" rest).getD "0")) (boolOf ((kv? "flt" rest).getD "0")),
+  let flt := boolOf ((kv? "flt" rest).getD "0")
+  let prog ← if flt then (kv? "prog" rest).bind (fun s => (progOf? s).map some) else some none
+  some { id := id, prog := prog,
+         mc := { cfg := theCfg (boolOf ((kv? "keep" rest).getD "0")) flt prog,
                  kind := kind, names := names, nss := nss,
                  nsSel := boolOf ((kv? "nssel" rest).getD "0"),
                  lblSel := boolOf ((kv? "lsel" rest).getD "0"), exclName := excl } }
@@ -240,7 +297,43 @@ def step (st : St) (toks : List String) : St × String :=
     | none => (st, "bad-op")
   | ["snap", id] =>
     match id.toNat?.bind (getMon st) with
-    | some ms => (st, showSnap (ms.m.snapshot (modelSort (ridOf st))))
+    | some ms =>
+      -- while some reader holds a snapshot the call goes through the heap (it allocates)
+      if st.held.isEmpty then (st, showSnap (ms.m.snapshot (modelSort (ridOf st)))) else
+      let (st', sl) := snapCall st ms
+      (st', showSnap (st'.heap.read sl))
+    | none => (st, "bad-op")
+  | ["hold", id] =>
+    -- an execution reads the binding's snapshot and keeps the slice
+    match id.toNat?.bind (getMon st) with
+    | some ms =>
+      let (st', sl) := snapCall st ms
+      ({ st' with held := st'.held.filter (·.1 != ms.id) ++ [(ms.id, sl)] }, showSnap (st'.heap.read sl))
+    | none => (st, "bad-op")
+  | ["held", id] =>
+    -- the execution looks at the slice it holds once more
+    match id.toNat?.bind (fun i => st.held.find? (·.1 == i)) with
+    | some (i, sl) => ({ st with held := st.held.filter (·.1 != i) }, showSnap (st.heap.read sl))
+    | none => (st, "bad-op")
+  | "oracle" :: "held" :: id :: rest =>
+    match id.toNat?.bind (getMon st) with
+    | some ms =>
+      match (kv? "first" rest).bind (parseSnap ms.mc.kind), (kv? "again" rest).bind (parseSnap ms.mc.kind) with
+      | some first, some again =>
+        (st, if again == first && (again.map (·.key)).eraseDups.length == again.length then "true" else "false")
+      | _, _ => (st, "bad-op")
+    | none => (st, "bad-op")
+  | "oracle" :: "same" :: rest =>
+    -- execution level: the rendered contexts an execution holds, as first seen / as seen again
+    match kv? "first" rest, kv? "again" rest with
+    | some a, some b => (st, if a == b then "true" else "false")
+    | _, _ => (st, "bad-op")
+  | "oracle" :: "filt" :: id :: rest =>
+    match id.toNat?.bind (getMon st) with
+    | some ms =>
+      match ms.prog, (kv? "got" rest).bind (parseSnap ms.mc.kind) with
+      | some p, some got => (st, if filtExact p st.w got then "true" else "false")
+      | _, _ => (st, "bad-op")
     | none => (st, "bad-op")
   | ["cbegin", id] =>
     match id.toNat?.bind (getMon st) with
